@@ -60,7 +60,8 @@ def read_back(root):
 
 
 FIX2 = os.path.join(VERIF, 'fixtures', 'released2')
-JKEYS = ['\u00e9', '\u043a\u043b\u044e\u0447', '\u65e5\u672c', 'ascii', ['list', '\u00e9', 1], 1.5, None, True]
+JKEYS = ['\u00e9', '\u043a\u043b\u044e\u0447', '\u65e5\u672c', 'ascii', ['list', '\u00e9', 1], 1.5, None, True,
+         {'b': 1, 'a': 2}, ['x', {'z': 1, 'm': [2, {'k': 0, 'c': 1}]}]]        # mappings whose insertion order is not the sorted one
 JVALS = ['\u00fcber', 'x' * 10, ['\u00e9', {'\u043a': [1, None]}], '\u65e5' * 3000, {'n': 1.5}]
 
 
